@@ -92,6 +92,39 @@ def corr(ctx):
                     # raw Laplacian draws and the scale are float32: tolerance for float32 products
                     add(kind, par if mode == "scale" else P, z.tolist(), nn.tolist(), "channels:LaplacianChannel", dict(cfg, mode=mode), signs, tol=5e-6)
                 ctx.count("power_cases", 3)
+    # ---- the Gaussian noise stage behind every front end and across call histories on ONE object:
+    #      NonlinearChannel (identity nonlinearity) in each complex_mode, AWGN objects reused for real / complex inputs in turn
+    def gauss_case(ch, x, s, site, cfg, P, tol=2e-6):
+        cplx = x.is_complex()
+        torch.manual_seed(s); y = ch(x)
+        n = y - x
+        torch.manual_seed(s)
+        if cplx:
+            zr = torch.randn_like(x.real); zi = torch.randn_like(x.imag)
+            z = torch.cat([zr.flatten(), zi.flatten()]); nn = torch.cat([n.real.flatten(), n.imag.flatten()])
+        else:
+            z = torch.randn_like(x).flatten(); nn = (n.real if n.is_complex() else n).flatten()
+        signs = bool((torch.sign(nn) == torch.sign(z)).all()) and tuple(y.shape) == tuple(x.shape) and (cplx or not y.is_complex() or float(y.imag.abs().max()) == 0.0)
+        add("awgnComplex" if cplx else "awgnReal", P, z.tolist(), nn.tolist(), site, cfg, signs, tol=tol)
+    for P in (1e-2, 0.5, 37.0):
+        for cmode in ("direct", "cartesian", "polar"):
+            for cplx in (False, True):
+                case += 1
+                x = signal((3, 8), cplx, rng.choice(scales))
+                ch = NonlinearChannel(lambda t: t, add_noise=True, avg_noise_power=P, complex_mode=cmode)
+                gauss_case(ch, x, seed0 + case, "channels:NonlinearChannel", {"P": P, "complex": cplx, "complex_mode": cmode, "mode": "power"}, P)
+                ctx.count("nonlinear_power_cases")
+        for order in ((True, False, True, False), (False, True, False), (True, True, False), (False, False, True)):
+            for dt in (torch.float64, torch.float32):
+                ch = AWGNChannel(avg_noise_power=P)
+                for step, cplx in enumerate(order):
+                    case += 1
+                    # float32: a small signal, so that rounding of x + n to float32 stays far below the comparison tolerance
+                    x = signal((2, 8), cplx, rng.choice(scales) if dt == torch.float64 else 1e-2)
+                    x = x.to(torch.complex64 if cplx else torch.float32) if dt == torch.float32 else x
+                    gauss_case(ch, x, seed0 + case, "channels:AWGNChannel.history", {"P": P, "dtype": str(dt), "order": ["complex" if c else "real" for c in order], "call": step}, P,
+                               tol=2e-6 if dt == torch.float64 else 2e-5)   # float32 signal: the sum x + n is rounded to float32
+                ctx.count("awgn_object_histories")
     # ---- SNR mode: integer decades are exact in the model (snrp), others through the float64 formula (test)
     for snr in [-20, -10, 0, 10, 20, 30, 40] + [rng.uniform(-20, 40) for _ in range(6)]:
         for cplx in (False, True):
